@@ -11,78 +11,165 @@ namespace PsModel.C18
 /-- **The reconstructed traceback names Python's own (file, function, line) triples** – for every chain of
 activations of any depth, any number of nested `aeval` frames and ignored interpreter frames per activation, reached
 through call expressions or called directly, on any evaluators – as long as no two *consecutive* activations are of
-the same function of the same file (`_partial`: see `C18_cex_recursion`). -/
-theorem C18_fmt_partial (chain : List Act) (h : NoAdj chain) : fmt (framesOf chain) = pyTraceback chain := by
-  unfold fmt pyTraceback
-  have := run_chain chain {} h (by intro a r _ e R hR; cases hR)
+the same function of the same file (`_partial`: see `C18_cex_recursion`).  Holds for both shapes of the `aeval` branch
+(before and after the repair of C18-F3). -/
+theorem C18_fmt_partial (c : Cfg) (chain : List Act) (h : NoAdj chain) : fmtC c (framesOf chain) = pyTraceback chain := by
+  unfold fmtC pyTraceback
+  have := (run_chain c chain {} h (by intro a r _ e R hR; cases hR)).1
   rw [this]
   simp
 
 /-- the same below a module body (an error while a file is loaded, or in a Jupyter cell): the module body
 contributes its file, the context name as "function" and its current line, then the chain follows -/
-theorem C18_fmt_module_partial (m : ModAct) (chain : List Act) (h : NoAdj chain)
-    (hfirst : ∀ a r, chain = a :: r → ¬(m.file = a.file ∧ (if m.file ≠ m.ctxName then some m.ctxName else none) = some a.func)) :
-    fmt (modFrames m ++ framesOf chain) = modTriple m :: pyTraceback chain := by
-  unfold fmt pyTraceback
-  rw [run_append]
-  -- the module body: first aeval sets the file and pushes, the others refine
-  have hmod : run {} (modFrames m)
-      = { curFunc := none, curFile := some m.file, line := m.last, rstack := [modTriple m] } := by
-    unfold modFrames
-    cases hls : m.lines ++ [m.last] with
-    | nil => simp at hls
-    | cons l r =>
-      simp only [aevals, run_cons]
-      have h1 : step {} (.aeval m.file m.ctxName (some l))
-          = { curFunc := none, curFile := some m.file, line := l,
-              rstack := [{ file := m.file, func := entryFunc none m.file m.ctxName, line := l, isReal := false }] } := by
-        simp [step, astFrame, entryFunc]
-      rw [h1]
-      obtain ⟨l', h', hl'⟩ := run_aevals_refine m.file none m.file m.ctxName m.noise r
-        { curFunc := none, curFile := some m.file, line := l,
-          rstack := [{ file := m.file, func := entryFunc none m.file m.ctxName, line := l, isReal := false }] }
-        { file := m.file, func := entryFunc none m.file m.ctxName, line := l, isReal := false } [] rfl rfl rfl rfl rfl rfl rfl
-      rw [h']
-      have : l' = m.last := by
-        rw [hl']
-        have h2 : (l :: r).getLast? = some m.last := by rw [← hls]; simp
-        cases r with
-        | nil => simp at h2 ⊢; exact h2
-        | cons y ys => rw [List.getLast?_cons_cons] at h2; simp [h2]
-      subst this
-      rfl
-  rw [hmod]
-  have := run_chain chain { curFunc := none, curFile := some m.file, line := m.last, rstack := [modTriple m] } h (by
+theorem C18_fmt_module_partial (c : Cfg) (m : ModAct) (chain : List Act) (h : NoAdj chain) (hfirst : FirstOk m chain) :
+    fmtC c (modFrames m ++ framesOf chain) = modTriple m :: pyTraceback chain := by
+  unfold fmtC pyTraceback
+  rw [run_append, run_mod_fresh c m {} rfl rfl (enterCtx_first c {} m.ctx rfl) (by intro e R hR; cases hR)]
+  have := (run_chain c chain (afterMod m []) h (by
     intro a r ha e R hR
-    simp only [List.cons.injEq] at hR
+    simp only [afterMod, List.cons.injEq] at hR
+    obtain ⟨rfl, _⟩ := hR
+    exact hfirst a r ha)).1
+  rw [this]
+  simp [afterMod, List.reverse_append]
+
+/-- **Imports are attributed to the imported file (the full statement finding C18-F3 blocked; current code).**  A file
+body `m0` with its chain of functions, below it ANY number of nested imports – each one the real frames of the import
+machinery, the body of the imported file on its own evaluator, and the chain of functions that body calls: every
+file body is reported under its OWN file with its own line, every function as Python reports it. -/
+theorem C18_fmt_imports (m0 : ModAct) (pre : List Act) (segs : List Seg) (hpre : NoAdj pre) (hfirst : FirstOk m0 pre)
+    (hsegs : SegsOk (lastCtx m0.ctx pre) segs) :
+    fmt (modFrames m0 ++ framesOf pre ++ segs.flatMap segFrames) = modTriple m0 :: pyTraceback pre ++ pyImports segs := by
+  unfold fmt fmtC pyTraceback pyImports
+  rw [run_append, run_append,
+    run_mod_fresh Cfg.current m0 {} rfl rfl (enterCtx_first _ {} m0.ctx rfl) (by intro e R hR; cases hR)]
+  have hch := run_chain Cfg.current pre (afterMod m0 []) hpre (by
+    intro a r ha e R hR
+    simp only [afterMod, List.cons.injEq] at hR
     obtain ⟨rfl, _⟩ := hR
     exact hfirst a r ha)
-  rw [this]
+  rw [run_segs segs _ _ (hch.2 m0.ctx ⟨rfl, rfl⟩) hsegs, hch.1]
+  simp [afterMod, List.reverse_append]
+
+/-- the same when the outermost activation is a function called by an entry point (trigger, service, task) and a
+function of the chain imports lazily -/
+theorem C18_fmt_lazy_imports (a : Act) (pre : List Act) (segs : List Seg) (hpre : NoAdj (a :: pre))
+    (hsegs : SegsOk (lastCtx a.ctx pre) segs) :
+    fmt (framesOf (a :: pre) ++ segs.flatMap segFrames) = pyTraceback (a :: pre) ++ pyImports segs := by
+  unfold fmt fmtC pyTraceback pyImports
+  rw [run_append]
+  have hch := run_chain Cfg.current (a :: pre) {} hpre (by intro a r _ e R hR; cases hR)
+  have hinv : Inv (runC Cfg.current {} (framesOf (a :: pre))) (lastCtx a.ctx pre) := by
+    unfold framesOf
+    simp only [List.map_cons, List.flatten_cons]
+    rw [run_append, run_act Cfg.current a {} (by intro e R hR; cases hR)]
+    have hn' : NoAdj pre := by
+      cases pre with
+      | nil => trivial
+      | cons b t => exact hpre.2
+    have := (run_chain Cfg.current pre (afterAct a []) hn' (by
+      intro b t hb e R hR
+      subst hb
+      simp only [afterAct, List.cons.injEq] at hR
+      obtain ⟨rfl, _⟩ := hR
+      intro hh
+      rcases hpre.1 with h1 | h1
+      · exact h1 hh.1
+      · have := hh.2
+        simp only [triple, Option.some.injEq] at this
+        exact h1 this)).2 a.ctx ⟨rfl, rfl⟩
+    unfold framesOf at this
+    exact this
+  rw [run_segs segs _ _ hinv hsegs, hch.1]
   simp [List.reverse_append]
+
+/-- non-vacuity of `SegsOk`: `a.py` imports `m.py` whose body imports `n.py` whose body calls `g` -/
+example : SegsOk (lastCtx 1 [])
+    [⟨[⟨"global_ctx.py", "module_import", 238⟩, ⟨"global_ctx.py", "load_file", 385⟩], ⟨2, "modules/m.py", "modules.m", [], 2, 1⟩, []⟩,
+     ⟨[⟨"global_ctx.py", "module_import", 238⟩, ⟨"global_ctx.py", "load_file", 385⟩], ⟨3, "modules/n.py", "modules.n", [], 4, 1⟩,
+      [⟨"modules/n.py", "g", 3, "modules/n.py", "modules.n", [], 2, true, 1⟩]⟩] := by
+  simp [SegsOk, SegOk, FirstOk, NoAdj, lastCtx, entryFunc]
 
 /-- **Finding #21 / C18-F1 (witness).**  Direct recursion `f → f → f`: three activations, ONE reported frame (with the
 innermost line) – every `aeval` frame of the inner activations replaces the entry of the outer one. -/
 theorem C18_cex_recursion :
-    fmt (framesOf [⟨"a.py", "f", "a.py", "file.a", [4], 5, true, 1⟩, ⟨"a.py", "f", "a.py", "file.a", [4], 5, true, 1⟩,
-                   ⟨"a.py", "f", "a.py", "file.a", [2], 3, true, 1⟩])
+    fmt (framesOf [⟨"a.py", "f", 1, "a.py", "file.a", [4], 5, true, 1⟩, ⟨"a.py", "f", 1, "a.py", "file.a", [4], 5, true, 1⟩,
+                   ⟨"a.py", "f", 1, "a.py", "file.a", [2], 3, true, 1⟩])
       = [{ file := "a.py", func := some "f", line := 3, isReal := false }] ∧
-    pyTraceback [⟨"a.py", "f", "a.py", "file.a", [4], 5, true, 1⟩, ⟨"a.py", "f", "a.py", "file.a", [4], 5, true, 1⟩,
-                 ⟨"a.py", "f", "a.py", "file.a", [2], 3, true, 1⟩]
+    pyTraceback [⟨"a.py", "f", 1, "a.py", "file.a", [4], 5, true, 1⟩, ⟨"a.py", "f", 1, "a.py", "file.a", [4], 5, true, 1⟩,
+                 ⟨"a.py", "f", 1, "a.py", "file.a", [2], 3, true, 1⟩]
       = [{ file := "a.py", func := some "f", line := 5, isReal := false },
          { file := "a.py", func := some "f", line := 5, isReal := false },
          { file := "a.py", func := some "f", line := 3, isReal := false }] := by
   constructor <;> decide
 
-/-- **Finding C18-F3 (witness).**  `current_filename` is set by the first `aeval` frame only.  When file `a.py`
-imports module `m.py` at load time and `m.py` raises, the frames of `m`'s module body are attributed to `a.py`
-(file name and source line of `a.py`, line NUMBER of `m.py`). -/
-theorem C18_nested_load_cex :
-    fmt [.aeval "a.py" "file.a" (some 2), .other, .real "global_ctx.py" "module_import" 231,
-         .real "global_ctx.py" "load_file" 378, .other, .aeval "modules/m.py" "modules.m" (some 7)]
+/-- **Regression witness for the repaired finding C18-F3.**  Before the repair `current_filename` was set by the first
+`aeval` frame only: when file `a.py` imports module `m.py` at load time and `m.py` raises, the frames of `m`'s module
+body were attributed to `a.py` (file name and source line of `a.py`, line NUMBER of `m.py`) – `Cfg.preF3`; the
+current shape names `modules/m.py`. -/
+theorem C18_regress_nested_load :
+    fmtC Cfg.preF3 [.aeval 1 "a.py" "file.a" (some 2), .other, .real "global_ctx.py" "module_import" 231,
+         .real "global_ctx.py" "load_file" 378, .other, .aeval 2 "modules/m.py" "modules.m" (some 7)]
       = [{ file := "a.py", func := some "file.a", line := 2, isReal := false },
          { file := "global_ctx.py", func := some "module_import", line := 231, isReal := true },
          { file := "global_ctx.py", func := some "load_file", line := 378, isReal := true },
-         { file := "a.py", func := some "modules.m", line := 7, isReal := false }] := by decide
+         { file := "a.py", func := some "modules.m", line := 7, isReal := false }] ∧
+    fmt [.aeval 1 "a.py" "file.a" (some 2), .other, .real "global_ctx.py" "module_import" 231,
+         .real "global_ctx.py" "load_file" 378, .other, .aeval 2 "modules/m.py" "modules.m" (some 7)]
+      = [{ file := "a.py", func := some "file.a", line := 2, isReal := false },
+         { file := "global_ctx.py", func := some "module_import", line := 231, isReal := true },
+         { file := "global_ctx.py", func := some "load_file", line := 378, isReal := true },
+         { file := "modules/m.py", func := some "modules.m", line := 7, isReal := false }] := by
+  constructor <;> decide
+
+/-- the same for a lazy import inside a function: before the repair the module body's line was reported as a line of
+the importing FUNCTION -/
+theorem C18_regress_lazy_import :
+    fmtC Cfg.preF3 [.callFunc "f0", .evalFuncCall "f0" "a.py", .aeval 1 "a.py" "file.a.f0" (some 2),
+         .real "global_ctx.py" "load_file" 378, .aeval 2 "modules/m.py" "modules.m" (some 3)]
+      = [{ file := "a.py", func := some "f0", line := 2, isReal := false },
+         { file := "global_ctx.py", func := some "load_file", line := 378, isReal := true },
+         { file := "a.py", func := some "f0", line := 3, isReal := false }] ∧
+    fmt [.callFunc "f0", .evalFuncCall "f0" "a.py", .aeval 1 "a.py" "file.a.f0" (some 2),
+         .real "global_ctx.py" "load_file" 378, .aeval 2 "modules/m.py" "modules.m" (some 3)]
+      = [{ file := "a.py", func := some "f0", line := 2, isReal := false },
+         { file := "global_ctx.py", func := some "load_file", line := 378, isReal := true },
+         { file := "modules/m.py", func := some "modules.m", line := 3, isReal := false }] := by
+  constructor <;> decide
+
+/-! ## the last line -/
+
+/-- **The report ends with Python's own `Type: message` line** – whatever class, wherever `__str__` is defined (builtin
+or in the script), whether it returns a text (also the empty one), raises or returns a non-string – except a script
+`__str__` that WAITS for something before it returns (`_partial`: see `C18_last_line_cex`). -/
+theorem C18_last_line_partial (name : String) (i : StrImpl) (h : ∀ t, i ≠ .script (.suspends t)) :
+    lastLine true name i = pyLastLine name i := by
+  cases i with
+  | native r => rfl
+  | script r =>
+    cases r with
+    | returns t => rfl
+    | raises => rfl
+    | nonString => rfl
+    | suspends t => exact absurd rfl (h t)
+
+/-- non-vacuity -/
+example : ∀ t, StrImpl.script (.returns "custom text") ≠ .script (.suspends t) := by intro t h; cases h
+
+/-- a script `__str__` that waits (`task.sleep`) cannot be completed from the synchronous formatter: the report says
+`<exception str() failed>` where Python would print the text -/
+theorem C18_last_line_cex :
+    lastLine true "Cus" (.script (.suspends "late")) = "Cus: <exception str() failed>" ∧
+    pyLastLine "Cus" (.script (.suspends "late")) = "Cus: late" := by
+  constructor <;> decide
+
+/-- **Regression witness for the repaired finding C18-F9.**  Before the repair the text of EVERY `__str__` defined in a
+script was lost (`str()` got a coroutine). -/
+theorem C18_regress_script_str :
+    lastLine false "Cus" (.script (.returns "custom text")) = "Cus: <exception str() failed>" ∧
+    lastLine true "Cus" (.script (.returns "custom text")) = "Cus: custom text" ∧
+    pyLastLine "Cus" (.script (.returns "custom text")) = "Cus: custom text" := by
+  refine ⟨?_, ?_, ?_⟩ <;> decide
 
 /-! ## containment -/
 
@@ -141,31 +228,44 @@ theorem C18_regress_uncaught_trigger_function (lg : String) (s : Loop) (e : Nat)
   simp [serve, contain, callAction]
 
 /-- **Load isolation**: after a load pass over any list of planned files, exactly the files that did not raise
-are registered, in order – each of them is loaded no matter how many others failed – and every failing file has
-exactly one record on its own logger. -/
+are registered, in order – each of them is loaded no matter how many others failed – every failing file has
+exactly one record on its own logger, and NO function of a file that failed to load is run by the clean-up (the full
+statement finding C18-F10 blocked). -/
 theorem C18_load_isolated (files : List SrcFile) (s : Loaded) :
     (loadAll files s).contexts = s.contexts ++ specContexts files ∧
     ((loadAll files s).log.filter (·.scriptTb)).map (·.logger)
-      = (s.log.filter (·.scriptTb)).map (·.logger) ++ (failing files).map (·.name) := by
+      = (s.log.filter (·.scriptTb)).map (·.logger) ++ (failing files).map (·.name) ∧
+    (loadAll files s).ran = s.ran := by
   induction files generalizing s with
-  | nil => simp [loadAll, specContexts, failing]
+  | nil => simp [loadAllC, specContexts, failing]
   | cons f r ih =>
     cases hf : f.loads with
     | ok =>
       have := ih { s with contexts := s.contexts ++ [f.name] }
-      simp only [loadAll, hf]
-      rw [this.1, this.2]
+      simp only [loadAllC, hf]
+      rw [this.1, this.2.1, this.2.2]
       simp [specContexts, failing, hf]
     | raise e =>
-      have := ih { s with log := s.log ++ [{ logger := f.name, exc := e, scriptTb := true },
-                                         { logger := "pyscript", exc := e, scriptTb := false }] }
-      simp only [loadAll, hf]
-      rw [this.1, this.2]
-      simp [specContexts, failing, hf]
+      have := ih { s with ran := s.ran ++ stopUnstarted true f,
+                          log := s.log ++ [{ logger := f.name, exc := e, scriptTb := true },
+                                           { logger := "pyscript", exc := e, scriptTb := false }] }
+      simp only [loadAllC, hf]
+      rw [this.1, this.2.1, this.2.2]
+      simp [specContexts, failing, hf, stopUnstarted]
+
+/-- **Regression witness for the repaired finding C18-F10.**  Before the repair the clean-up after a failed load ran the
+`@time_trigger("shutdown")` functions the file had defined before it raised (legacy subsystem) – code of a file that
+"failed to load" was executed. -/
+theorem C18_regress_failed_load_runs_shutdown :
+    (loadAllC false [⟨"file.a", .ok, 0⟩, ⟨"file.bad", .raise 1, 1⟩, ⟨"file.good", .ok, 0⟩] ⟨[], [], []⟩).ran = ["file.bad"] ∧
+    (loadAll [⟨"file.a", .ok, 0⟩, ⟨"file.bad", .raise 1, 1⟩, ⟨"file.good", .ok, 0⟩] ⟨[], [], []⟩).ran = [] ∧
+    (loadAllC false [⟨"file.a", .ok, 0⟩, ⟨"file.bad", .raise 1, 1⟩, ⟨"file.good", .ok, 0⟩] ⟨[], [], []⟩).contexts
+      = ["file.a", "file.good"] := by
+  refine ⟨?_, ?_, ?_⟩ <;> decide
 
 /-- non-vacuity: a chain of depth 3 across two files without adjacent equal activations -/
-example : NoAdj [⟨"a.py", "f", "a.py", "file.a", [4], 5, false, 1⟩, ⟨"m.py", "g", "a.py", "file.a", [], 9, true, 2⟩,
-                 ⟨"a.py", "f", "a.py", "file.a", [2], 3, true, 0⟩] := by
+example : NoAdj [⟨"a.py", "f", 1, "a.py", "file.a", [4], 5, false, 1⟩, ⟨"m.py", "g", 1, "a.py", "file.a", [], 9, true, 2⟩,
+                 ⟨"a.py", "f", 1, "a.py", "file.a", [2], 3, true, 0⟩] := by
   simp [NoAdj]
 
 
@@ -173,13 +273,13 @@ example : NoAdj [⟨"a.py", "f", "a.py", "file.a", [4], 5, false, 1⟩, ⟨"m.py
 caught it): no `EvalFunc.call` frame, so the entry names the evaluator (`file.a.f0`) and the evaluator's file, not
 the function `f1` of `modules/m.py` in which line 3 was executed. -/
 theorem C18_chained_cause_cex :
-    fmt [.other, .aeval "a.py" "file.a.f0" (some 3), .other, .aeval "a.py" "file.a.f0" (some 3)]
+    fmt [.other, .aeval 1 "a.py" "file.a.f0" (some 3), .other, .aeval 1 "a.py" "file.a.f0" (some 3)]
       = [{ file := "a.py", func := some "file.a.f0", line := 3, isReal := false }] := by decide
 
 /-- **Finding C18-F5 (witness).**  A decorator's wrapper carries the decorated function's name: wrapper (line 3) and
 function (line 8) are two activations of the same (file, name) and are merged. -/
 theorem C18_decorator_cex :
-    fmt (framesOf [⟨"a.py", "f0", "a.py", "file.a", [], 3, true, 1⟩, ⟨"a.py", "f0", "a.py", "file.a", [], 8, true, 1⟩])
+    fmt (framesOf [⟨"a.py", "f0", 1, "a.py", "file.a", [], 3, true, 1⟩, ⟨"a.py", "f0", 1, "a.py", "file.a", [], 8, true, 1⟩])
       = [{ file := "a.py", func := some "f0", line := 8, isReal := false }] := by decide
 
 end PsModel.C18
